@@ -1680,3 +1680,37 @@ void h_ec_glob(void)
 	__CPROVER_assert(0, "canary");
 #endif
 }
+
+/* ================================================================== bufs_shift: ":b !" deletes the current buffer (C20) */
+void bufs_shift_frame_contract(void)
+__CPROVER_requires(0 <= g_free_calls && g_free_calls < 1000)
+__CPROVER_assigns(__CPROVER_object_whole(bufs), xrow, xoff, xtop, xleft, xtd, B.regput_calls, g_free_calls, g_free_last)
+__CPROVER_frees(bufs[0].path)
+;
+void h_bufs_shift(void)
+{
+	int k;
+	GHOST_INIT();
+	FILE_ENV_HAVOC();
+	BUFS_HAVOC();
+	g_k = nondet_int();
+	__CPROVER_assume(0 <= g_k && g_k < 15);
+	for (k = 0; k < 16; k++) {
+		bufs[k].ft[0] = nondet_char();
+		bufs[k].ft[31] = nondet_char();
+		g_old[k] = bufs[k];
+	}
+	g_free_calls = 0; g_free_last = 0;
+	int cnt0 = bufs_cnt;
+	bufs_shift();
+	/* exactly the current buffer is released, every other open buffer keeps its text, file, id and position and moves up one slot */
+	__CPROVER_assert(g_old[0].lb ? (g_free_calls == 1 && g_free_last == g_old[0].lb) : g_free_calls == 0, "bufs_shift: the current buffer, and only it, is released");
+	__CPROVER_assert(SAMEBUF(bufs[g_k], g_old[g_k + 1]), "bufs_shift: every other slot moves up by one, keeping its text, position, file and id");
+	__CPROVER_assert(bufs[15].lb == 0 && bufs[15].path == 0, "bufs_shift: the last slot becomes free");
+	__CPROVER_assert(xrow == g_old[1].row && xoff == g_old[1].off && xtop == g_old[1].top && xleft == g_old[1].left && xtd == g_old[1].td, "bufs_shift: cursor and window of the buffer that becomes current are restored");
+	__CPROVER_assert(bufs_cnt == cnt0, "bufs_shift: the id counter is not wound back (ids handed out later stay distinct from those of open buffers)");
+	__CPROVER_assert(B.mod_calls == 0 && B.saved_calls == 0 && B.rd_calls == 0, "bufs_shift: no other buffer's dirty state or text is consulted or changed");
+#ifdef CANARY
+	__CPROVER_assert(0, "canary");
+#endif
+}
